@@ -597,6 +597,10 @@ func init() {
 						_, pub := w.newECDSAKey(fr, tk.k)
 						pubT, _ := w.ecdsaTypes()
 						cert[structFieldIndex(ct, "PublicKey")] = IfaceV{T: types.NewPointer(pubT), V: pub}
+						// RawSubjectPublicKeyInfo is a function of the key alone: equal for two certificates of one
+						// key, different for different keys (SPKI-hash comparisons, seed C06-4)
+						spki := w.strConst(fmt.Sprintf("idealised-SPKI-of-key-%d", tk.k.id)).B
+						cert[structFieldIndex(ct, "RawSubjectPublicKeyInfo")] = w.bytesToSlice(spki)
 					}
 				}
 			}
